@@ -190,6 +190,12 @@ class Intervals:
                 return (-2**31, 2**31 - 1)
             if e.get('cid') in self.call_ranges:
                 return self.call_ranges[e['cid']]
+            rr = self.return_range(e)
+            if rr is not None:
+                tr = type_range(e.get('t'))
+                m = meet(rr, tr) if tr != (-INF, INF) else rr
+                if m is not None:
+                    return m
             if e.get('cname') in self.call_ranges:
                 return self.call_ranges[e['cname']]
             return type_range(e.get('t'))
@@ -314,6 +320,34 @@ class Intervals:
             return self.effects(e.get('e'), st)
         if k == 'member':
             return
+
+    _ret_memo = {}
+
+    def return_range(self, call):
+        """range of a callee's return value, context-insensitively (parameters at their type range);
+        only for small non-recursive library functions"""
+        if self.facts is None or call.get('cid') not in self.facts.by_id:
+            return None
+        key = (id(self.facts), call['cid'])
+        if key in Intervals._ret_memo:
+            return Intervals._ret_memo[key]
+        Intervals._ret_memo[key] = None    # recursion guard
+        g = self.facts.by_id[call['cid']]
+        if len(g.blocks) > 12 or type_range(g.d.get('ret_t')) == (-INF, INF) or getattr(self, '_depth', 0) >= 2:
+            return None
+        sub = Intervals.__new__(Intervals)
+        sub._depth = getattr(self, '_depth', 0) + 1
+        Intervals.__init__(sub, g, tables=self.tables, call_ranges=self.call_ranges, facts=self.facts)
+        out = None
+        for bid, i, s_ in g.stmts():
+            s2 = strip(s_)
+            if s2.get('k') == 'ret' and s2.get('e') is not None:
+                st = sub.at(bid, i)
+                if st is None:
+                    continue
+                out = join(out, sub.ev(s2['e'], dict(st)))
+        Intervals._ret_memo[key] = out
+        return out
 
     def byref_post(self, call, arg, st):
         """range of a by-reference argument after the call: analyse the callee with the argument's
